@@ -45,6 +45,6 @@ DELIVERABLES (all inside %(wt)s):
                              "results": {"suite_with_patch": "<summary line of nextest>", "demo_with_patch": "<failing output line>", "demo_without_patch": "<passing line>"}}
   - OUT/oddities.md       : (optional) anything you noticed on the UNMODIFIED tree that itself looks like a violation of the property, with a reproducer if you have one.
 Verify all three facts yourself before you finish: suite passes with the patch (demo file moved away while running the suite), demo fails with the patch,
-demo passes on the unmodified tree (git stash / git checkout -- src macros). Leave the worktree with your patch applied and the demo in tests/.
+demo passes on the unmodified tree (save your diff first: `git diff -- src macros > OUT/patch.diff; git checkout -- src macros; ...; git apply OUT/patch.diff`; do NOT use `git stash`: the stash is shared between worktrees of other people). Leave the worktree with your patch applied and the demo in tests/.
 Do not commit anything. Report briefly what you changed and the three results.""" % {
     "wt": wt, "id": p["id"], "title": p.get("title"), "stmt": p.get("statement") or p.get("description"), "earlier": "\n".join(earlier) or "- (none)"})
